@@ -4,7 +4,7 @@ from harness.oracles import all as ALL
 
 ID = 'C06'
 UNITS = ['event_metrics', 'transcription_scores', 'multipitch_metrics', 'seg_cluster_q', 'hier_measures', 'pattern_scores', 'seg_entropy_num', 'note_matching', 'chord_evaluate']
-TRANSLATORS = ['wrapfuncs', 'patternfuncs']
+TRANSLATORS = ['wrapfuncs', 'patternfuncs', 'corefuncs']
 NOT_COVERED = 'all listed swaps are theorems, including AMI (Reals formula of the expected mutual information, tied numerically inside Coq by seg_entropy_num).'
 ASSUMPTIONS = ['exact-arithmetic lattices for the correspondence (DESIGN.md section 2.1); NumPy/SciPy primitives as modelled per module']
 
